@@ -60,6 +60,18 @@ Proof.
     first [ exact Hs | apply one_seg_push; exact Hs | eapply one_seg_same; [|exact Hs]; reflexivity ].
 Qed.
 
+(** only .device (and what an included file does) changes the selected device - hence the capacities a build is held to *)
+Lemma directive_keeps_device d ops st line st' ni : d <> DDevice -> d <> DInclude ->
+  directive_parse fuel inc d ops st line = Ok (st', ni) -> dev (pcx st') = dev (pcx st).
+Proof.
+  intros Hd Hi H. unfold directive_parse in H.
+  destruct d; try discriminate; try congruence;
+    repeat match type of H with
+           | context [match ?x with _ => _ end] => destruct x eqn:?; try discriminate
+           end;
+    try (injection H as <- _); reflexivity.
+Qed.
+
 Lemma line_step_one_seg a ln sk st st' ni : neutral_line ln = true ->
   line_step fuel inc ln sk st = Ok (st', ni) -> one_seg a st -> one_seg a st'.
 Proof.
